@@ -8,6 +8,7 @@ from .graph_utils import (merge_graphs,
                           sort_nodes_by_attr,
                           annotate_fragments,
                           set_atom_names_atomistic)
+from pysmiles.smiles_helper import bonds_missing
 from .pysmiles_utils import (rebuild_h_atoms,
                              annotate_ez_isomers_cgsmiles)
 
@@ -353,6 +354,12 @@ class MoleculeResolver:
             # add the fragment id of the sequashed node
             self.molecule.nodes[node_to_keep]['fragid'] += self.molecule.nodes[node_to_keep]['contraction'][node_to_remove]['fragid']
             self.molecule.nodes[node_to_keep]['mapping'] += self.molecule.nodes[node_to_keep]['contraction'][node_to_remove]['mapping']
+            # the hydrogen count of the merged atom follows from the
+            # bonds of both atoms
+            if 'hcount' in self.molecule.nodes[node_to_keep]:
+                self.molecule.nodes[node_to_keep]['hcount'] = 0
+                missing = bonds_missing(self.molecule, node_to_keep)
+                self.molecule.nodes[node_to_keep]['hcount'] = max(0, missing)
 
     def resolve(self):
         """
